@@ -79,13 +79,20 @@ def Node.get? : Node → Addr → Option Node
     | some c => c.get? rest
     | none => none
 
-/-- functional update; an address outside the tree changes nothing -/
+/-- apply `f` to the `i`-th element (none: unchanged) -/
+def modifyNth (f : Node → Node) : List Node → Nat → List Node
+  | [], _ => []
+  | c :: cs, 0 => f c :: cs
+  | c :: cs, i + 1 => c :: modifyNth f cs i
+
+/-- functional update; an address outside the tree changes nothing. (Written by cases on the node so
+that the compiled code updates a uniquely referenced tree in place.) -/
 def Node.set : Node → Addr → Node → Node
   | _, [], v => v
-  | n, i :: rest, v =>
-    match n.children[i]? with
-    | some c => n.withChildren (n.children.set i (c.set rest v))
-    | none => n
+  | .msg t ps, i :: rest, v => .msg t (modifyNth (fun c => c.set rest v) ps i)
+  | .list xs, i :: rest, v => .list (modifyNth (fun c => c.set rest v) xs i)
+  | .map ks vs, i :: rest, v => .map ks (modifyNth (fun c => c.set rest v) vs i)
+  | n, _ :: _, _ => n
 
 /-- proto presence of a value (lists and maps: non-empty; a scalar without presence holding the
 zero value is stored as `absent`, see `storeScalar`) -/
